@@ -112,10 +112,21 @@ def key_rule(ctx, d1, f, cname):
         d1.ok(cons, 'hit requires literal AND composition to match and the name to be cached; any mismatch clears the memo', f, tests[0])
     else:
         d1.fail(cons, 'hit-test', 'the hit test does not compare both key parts (or a mismatch does not clear the memo)', f, f.node)
-    # key unpacked from the object's own key
+    # key unpacked from the object's own key -- and compared exactly as stored (single definition of each compared name)
     unp = [n for n in walk_no_nested(f.node) if isinstance(n, ast.Assign) and src(n.value) == 'self._property_cache_key']
     if unp:
         d1.ok(cons, 'last key is read from self._property_cache_key', f, unp[0])
+        names = [x.id for x in ast.walk(unp[0].targets[0]) if isinstance(x, ast.Name)]
+        for nm in names:
+            defs = [x for x in walk_no_nested(f.node) if isinstance(x, ast.Name) and x.id == nm and isinstance(x.ctx, ast.Store)]
+            if len(defs) == 1:
+                d1.ok(cons, 'the remembered key part %r is compared exactly as stored (single definition)' % nm, f, unp[0])
+            else:
+                from ..storage import stmt_of
+                others = [stmt_of(d) for d in defs if stmt_of(d) is not unp[0]]
+                st = others[0] if others else stmt_of(defs[0])
+                d1.fail(cons, 'remembered-key-rewritten', 'the remembered key part %r is re-computed (%s) before the hit test: the comparison no longer '
+                        'tests the state the cached values were computed for' % (nm, src(st)), f, st)
     else:
         d1.fail(cons, 'key-source', 'the previous key is not read from self._property_cache_key', f, f.node)
 
